@@ -156,7 +156,7 @@ Section Sched.
       replace (i + ii + 16 - 7)%nat with (i + ii + 9)%nat by lia.
       replace (i + ii + 16 - 15)%nat with (i + ii + 1)%nat by lia.
       replace (i + ii + 16 - 16)%nat with (i + ii)%nat by lia.
-      reflexivity.
+      rewrite c256_s1_eq, c256_s0_eq. reflexivity.
     - rewrite nth_upd_neq by lia. apply HW. lia.
   Qed.
 
@@ -173,8 +173,9 @@ Section Sched.
     sched_ok (ii + 32) (c256_msch16 W ii).
   Proof.
     intros HW Hle. unfold c256_msch16.
-    pose proof (msch_fold_ok ii 16 0 W) as H. cbn [Nat.add] in H.
-    replace (16 + ii + 16)%nat with (ii + 32)%nat in H by lia. apply H; [exact HW|lia].
+    pose proof (msch_fold_ok ii 16 0 W) as H.
+    replace (0 + ii + 16)%nat with (ii + 16)%nat in H by lia.
+    replace (0 + 16 + ii + 16)%nat with (ii + 32)%nat in H by lia. apply H; [exact HW|lia].
   Qed.
 End Sched.
 
@@ -197,11 +198,20 @@ Proof.
   change (seq 0 64) with (seq 0 16 ++ seq 16 16 ++ seq 32 16 ++ seq 48 16).
   rewrite !fold_left_app.
   cbn [c256_mix Nat.ltb Nat.leb Nat.eqb Nat.add].
-  rewrite (rounds16_sim K Wspec) by (try exact Hst; intros j Hj; apply H0; lia).
-  rewrite (rounds16_sim K Wspec) by (try (apply Hlen; exact Hst); intros j Hj; apply H1; lia).
-  rewrite (rounds16_sim K Wspec) by (try (do 2 apply Hlen; exact Hst); intros j Hj; apply H2; lia).
-  rewrite (rounds16_sim K Wspec) by (try (do 3 apply Hlen; exact Hst); intros j Hj; apply H3; lia).
-  reflexivity.
+  set (W0 := be32dec_vect block ++ repeat 0 48) in *.
+  set (v1 := fold_left stepf (seq 0 16) st).
+  assert (E1 : c256_rounds16 K st W0 0 = v1)
+    by (apply rounds16_sim; [intros j Hj; apply H0; lia | exact Hst]).
+  rewrite E1.
+  set (v2 := fold_left stepf (seq 16 16) v1).
+  assert (E2 : c256_rounds16 K v1 (c256_msch16 W0 0) 16 = v2)
+    by (apply rounds16_sim; [intros j Hj; apply H1; lia | apply Hlen; exact Hst]).
+  rewrite E2.
+  set (v3 := fold_left stepf (seq 32 16) v2).
+  assert (E3 : c256_rounds16 K v2 (c256_msch16 (c256_msch16 W0 0) 16) 32 = v3)
+    by (apply rounds16_sim; [intros j Hj; apply H2; lia | do 2 apply Hlen; exact Hst]).
+  rewrite E3.
+  apply rounds16_sim; [intros j Hj; apply H3; lia | do 3 apply Hlen; exact Hst].
 Qed.
 
 Corollary c256_transform_spec st block :
